@@ -182,6 +182,11 @@ func normOpt(s string) string {
 		if n >= 31 {
 			return "tag:N>=31"
 		}
+		for _, u := range univNums {
+			if n == u && n != 2 && n != 4 {
+				return m // the shrinker could not replace it by tag:1: the number matters
+			}
+		}
 		return "tag:N"
 	})
 }
